@@ -89,7 +89,7 @@ def streams(tier, rng, fs, profile):
             vals = values(rng, ty, 60 if quick else 1500)
             for r in rr:
                 f = gens.pack(r)
-                for bits in (vals if not quick else rng.sample(vals, 160)):
+                for bits in (vals if not quick else rng.sample(vals, min(len(vals), 160))):
                     o = gw.rand_opts(rng, radix=r, punct=False)
                     if o["mx"] is None and rng.random() < 0.7:
                         o["mx"] = rng.choice(gw.MAXS[:14])
